@@ -317,4 +317,11 @@ def prove(ctx, prop, extra_targets=()):
         errs = [l for l in log.split("\n") if l.startswith("error")]
         return False, ["lake build failed"] + errs[:20]
     problems = audit(ctx, prop)
+    if ctx.tier == "thorough" and not problems:
+        # independent re-check of the compiled module by the toolchain's leanchecker
+        r = sh([os.path.join(VERIF, "tools", "lk"), "env", "leanchecker", "Uft.Props." + prop])
+        ok = r.returncode == 0
+        ctx.notes.append("leanchecker Uft.Props.%s: %s" % (prop, "ok" if ok else "FAILED: " + r.stdout[-300:]))
+        if not ok:
+            problems.append("leanchecker rejected Uft.Props.%s: %s" % (prop, r.stdout[-300:]))
     return not problems, problems
